@@ -162,7 +162,10 @@ def build_rtf(seed: int, feature: str | None = None, twin: bool = False):
                 pos += 1
     out.append("}")
     exp.n_units = pos + 1
-    return "".join(out).encode("ascii"), exp
+    text = "".join(out)
+    if feature is None and random.Random(f"rtf-eol:{seed}").random() < 0.35:
+        text = text.replace("\r\n", "\n").replace("\n", "\r\n")     # Word writes CRLF source lines (line ends carry no meaning in RTF)
+    return text.encode("ascii"), exp
 
 
 BUILDERS = {"rtf": (build_rtf, RTF_FEATURES, "rtf", ".rtf")}
